@@ -12,7 +12,7 @@ From Coq Require Import NArith Bool List Lia.
 From RS.Gen Require Import Prelude GenConsts.
 From RS.Model Require Import Field Tables Sched Codec Spec.
 From RS.Model Require Import Layout Machine.
-From RS.Proofs Require Import PermFacts RoundLow RoundHigh RoundShards MachineOps.
+From RS.Proofs Require Import PermFacts RoundLow RoundHigh RoundShards MachineOps OneShotRound.
 Import ListNotations.
 Local Open Scope N_scope.
 
@@ -135,6 +135,20 @@ Proof.
   - eapply ops_low_decode; eassumption.
 Qed.
 Print Assumptions C01_api_decode.
+
+(* ... and the one-shot functions: whenever decode() accepts a selection (any order, any subset with
+   at least original_count members) of the originals and of the shards encode() returned for them,
+   its result contains every missing original *)
+Theorem C01_oneshot : forall junk, (forall a b c, junk a b c < 65536) ->
+  forall K R sb ep ep' originals recs, N.of_nat (length originals) = K -> Forall (byteshard sb) originals ->
+  oneshot_encode junk ep K R originals = RShards recs ->
+  forall orig rec, (forall i s, In (i, s) orig -> s = nth (N.to_nat i) originals []) ->
+  (forall j s, In (j, s) rec -> s = nth (N.to_nat j) recs []) ->
+  K <= N.of_nat (length orig + length rec) -> rec <> [] \/ orig <> [] ->
+  forall it, oneshot_decode junk ep' K R orig rec = RMap it ->
+  forall i, i < K -> (forall s, ~ In (i, s) orig) -> In (i, nth (N.to_nat i) originals []) it.
+Proof. intros. eapply oneshot_roundtrip; eassumption. Qed.
+Print Assumptions C01_oneshot.
 
 Definition data (K : N) : list N := map (fun i => (i * 40503 + 977) mod 65536) (range 0 K).
 Definition junkv (i : N) : N := (i * 7919 + 4242) mod 65536.
